@@ -199,8 +199,8 @@ worker(int w, int W, int thorough, uint64_t seed, stat_t stats[NNT][3], int exha
             else if (nt->size == 4) {
                 /* 2^16 blocks of 2^16 patterns; quick: every 256th block (2^24 patterns) with a
                    seed-dependent offset so that different seeds cover different strata */
-                uint32_t step = thorough ? 1 : 256;
-                uint32_t off  = thorough ? 0 : (uint32_t)(seed % 256);
+                uint32_t step = thorough ? 1 : 32;
+                uint32_t off  = thorough ? 0 : (uint32_t)(seed % 32);
                 uint32_t k    = 0;
                 for (uint32_t hi = off; hi < 65536; hi += step, k++) {
                     if ((int)(k % (uint32_t)W) != w)
